@@ -1,7 +1,9 @@
 package dbsim
 
 import (
+	"errors"
 	"fmt"
+	"os"
 	"sort"
 	"strconv"
 	"strings"
@@ -37,6 +39,15 @@ func genTxnC(r *sim.Rand, tier, prop string) *sim.Case {
 	}
 	if prop == "C04" {
 		c.Cfg["max_batch_count"] = r.Pick64(0, 3, 4)
+		// Disk error (1 run in 3): the n-th write to a WAL segment fails once. The
+		// commit that meets it may report the error; everything acknowledged with nil,
+		// before, in the same commit batch or after, must still be there.
+		if r.Intn(3) == 0 {
+			c.Cfg["io_fail_nth"] = int64(1 + r.Intn(8))
+			// a WAL write buffer of a few dozen bytes: appends reach the file inside the
+			// apply step of a commit request, so ONE request of a commit batch can fail
+			c.Cfg["wal_buffer"] = r.Pick64(16, 64, 256, 0)
+		}
 	}
 	// A tiny watermark window forces window rebuilds inside a run (the shipped
 	// window needs 65536 commits); 0 = shipped size.
@@ -158,6 +169,25 @@ func execTxnC(t *testing.T, c *sim.Case, prop string) (res *sim.Result) {
 			res.Violate(0, "open_failed", nil, "%v", err)
 			return
 		}
+		if n := int(c.CfgInt("io_fail_nth", 0)); n > 0 {
+			seen := 0
+			failOp := "write"
+			w.FS.Fail = func(ev sim.FSEvent) error {
+				if os.Getenv("VERIF_FSPROBE") != "" {
+					res.Probes["fs_"+ev.Op+"_"+ev.Class]++
+				}
+				if ev.Op != failOp || ev.Class != "wal" {
+					return nil
+				}
+				seen++
+				if seen != n {
+					return nil
+				}
+				res.Faults["io_error_wal_"+failOp]++
+				m.ioFailed = true
+				return errors.New("verif: injected disk error (wal write)")
+			}
+		}
 		ntasks := int(c.CfgInt("tasks", 2))
 		scripts := make([][]sim.Op, ntasks)
 		for _, op := range c.Ops {
@@ -216,16 +246,17 @@ func (m *modeC) blockedDesc() string {
 }
 
 type txnRec struct {
-	ord      int
-	task     int
-	rw       bool
-	readTs   uint64
-	commitTs uint64
-	commitOK bool
-	commit   *call
-	begin    *call
-	calls    []*call
-	writes   map[int]*call // last write per key
+	ord       int
+	task      int
+	rw        bool
+	readTs    uint64
+	commitTs  uint64
+	commitOK  bool
+	commitErr string
+	commit    *call
+	begin     *call
+	calls     []*call
+	writes    map[int]*call // last write per key
 }
 
 func countCommits(m *modeC) int {
@@ -257,7 +288,7 @@ func buildTxns(m *modeC) []*txnRec {
 				tr.writes[c.key] = c
 			}
 		case "commit":
-			tr.commit = c
+			tr.commit, tr.commitErr = c, c.err
 			if c.err == "" && c.commitTs > 0 {
 				tr.commitOK, tr.commitTs = true, c.commitTs
 			}
@@ -331,6 +362,11 @@ func checkTxnHistory(m *modeC, prop string) {
 				sig := sigBase()
 				if owner := valueOwner[c.val]; c.found && owner != nil && owner != t {
 					switch {
+					case !owner.commitOK && m.ioFailed && strings.HasPrefix(owner.commitErr, "other:"):
+						// The commit met the injected disk error and reported it: what became of
+						// its writes is not settled by the statement (narrow relaxation).
+						res.Probes["read_of_io_failed_commit"]++
+						continue
 					case !owner.commitOK:
 						class = "read_uncommitted"
 					case owner.commitTs > t.readTs:
@@ -498,6 +534,8 @@ func checkFinalDump(m *modeC) {
 		d, stored := got[id]
 		w, wanted := exp[id]
 		switch {
+		case stored && !wanted && m.ioFailed && ioFailedWrite(txns, d):
+			m.res.Probes["stored_write_of_io_failed_commit"]++
 		case stored && !wanted:
 			m.res.Violate(m.res.Steps, "uncommitted_write_stored", sig, "stored entry %s is not a write of any successful commit (commits: %s)", d, descCommits(txns))
 		case !stored && wanted:
@@ -506,6 +544,21 @@ func checkFinalDump(m *modeC) {
 			m.res.Violate(m.res.Steps, "committed_write_differs", sig, "stored %s, committed %q del=%v", d, w.val, w.del)
 		}
 	}
+}
+
+// ioFailedWrite: is the stored entry a write of a commit that reported the injected disk error?
+func ioFailedWrite(txns []*txnRec, d DumpEntry) bool {
+	for _, t := range txns {
+		if t.commitOK || !strings.HasPrefix(t.commitErr, "other:") {
+			continue
+		}
+		for k, w := range t.writes {
+			if keyNames[k] == d.Key && (w.kind == "del") == (d.Meta&kv.BitDelete != 0) && (w.kind == "del" || string(d.Value) == w.val) {
+				return true
+			}
+		}
+	}
+	return false
 }
 
 // recoverBubbleDeadlock turns synctest's end-of-bubble "deadlock" panic (tasks
